@@ -297,10 +297,10 @@ def matchInput (c : Ctx) (inputLen : Nat) (matchFn : Nat → Nat → Bool) (posi
                   pure (it.maySkip c.font o == .yes) else pure false
               ligbase := if skippable then 2 else 1
             if ligbase == 1 then
-              return { ok := false, endPos := 0, positions := positions, totalComps := total }
+              return { ok := false, endPos := it.idx + 1, positions := positions, totalComps := total }
         else
           if thisLigId != 0 && thisLigComp != 0 && thisLigId != firstLigId then
-            return { ok := false, endPos := 0, positions := positions, totalComps := total }
+            return { ok := false, endPos := it.idx + 1, positions := positions, totalComps := total }
         loop it positions (total + ligNumComps this) ligbase (k + 1) rest
   let r ← loop it positions 0 0 1 (count - 1)
   if r.ok then
